@@ -9,5 +9,7 @@ import DeepModel.Props.C04
 #print axioms C04.c04_refines_spec
 #print axioms C04.c04_parse_fallback
 #print axioms C04.c04_builder_defaults
+#print axioms C04.c04_conc_serial
+#print axioms C04.c04_conc_serial_count
 #print axioms C04.c04_conc_race_witness
 #print axioms C04.c04_conc_serial_example
